@@ -371,7 +371,9 @@ def symarr(x, ndmin=0):
     out = _np.empty(a.shape, dtype=object)
     flat = out.reshape(-1)
     for i, v in enumerate(a.reshape(-1).tolist()):
-        flat[i] = wrap(v)
+        # NaN / +-inf leaves stay plain floats (missing-value markers next to symbolic values: they can be
+        # masked out or tested with isnan; arithmetic on them raises Unsupported)
+        flat[i] = v if (isinstance(v, float) and not math.isfinite(v)) else wrap(v)
     return out
 
 
@@ -1201,6 +1203,8 @@ def _mk_minmax(realfn, is_max):
     def f(a, axis=None, out=None, **kw):
         if symbolic_active() and axis is None and out is None and not kw and is_sym(a):
             vals = _np.asarray(a, dtype=object).ravel().tolist()
+            if any(isinstance(v, float) and not math.isfinite(v) for v in vals):
+                return realfn(a, axis=axis, out=out, **kw)      # +-inf / NaN entries: python comparisons (forking)
             cur = lift(wrap(vals[0]))
             for v in vals[1:]:
                 t = lift(wrap(v))
